@@ -76,7 +76,8 @@ pub const INFO: Info = Info {
            (a tagged record directly before an untagged one) / last, with generate_decoys = true (they must be skipped \
            without trace) or false (they are the decoys) (tagged accessions, peptides shared between tagged and untagged proteins); mass \
            window sometimes cutting the form list; directed cases: the two fixed C08 defects, palindromic / short \
-           peptides whose reversal is a target, a FASTA without any peptide (panic class, trivial); every case is also \
+           peptides whose reversal is a target, FASTAs without any digest (one protein below min_len, only tagged records while decoys are generated, empty \
+           FASTA: the empty database, trivial); every case is also \
            rebuilt 4 times from a fresh Parameters value (new HashMap seeds). db8t (block-boundary stream): FASTAs \
            of 3-peptide proteins over a pool of m distinct peptides plus single-peptide proteins, so that every form \
            is produced by up to four digest groups (N-terminal / internal / C-terminal / whole protein) and by its \
@@ -590,7 +591,7 @@ pub fn exec(op: &str, t: &mut Toks) -> Option<String> {
     }
     let r = read_req(t)?;
     let p = parameters(&r);
-    // the reference build runs in a 4-thread pool; a panic (no digest at all) propagates to the caller
+    // the reference build runs in a 4-thread pool; a panic (an assert of Enzyme::new) propagates to the caller
     let base = pool(4).install(|| content(&build(&p, &r.recs)));
     let mut o = Out::new();
     o.raw("ok").n(base.npep).raw(&base.peps);
@@ -999,10 +1000,19 @@ fn directed(emit: &mut dyn FnMut(Case)) {
         r.gen = gen;
         emit_req(emit, &r, &["directed", tag]);
     }
-    // FASTA without any peptide: Parameters::build panics (outside the statement; trivial)
-    let r = plain(vec![("P1", "AAK")]);
-    let c = Case::new(write_req(&r)).tag("directed").tag("no_peptide_panic").nontrivial(false);
-    emit(c);
+    // no digest at all: the empty database (group_digests is guarded; it used to index digests[0] and panic):
+    // one protein below min_len; only tagged records while decoys are generated; an empty FASTA
+    for (gen, recs) in [
+        (false, vec![("P1", "AAK")]),
+        (true, vec![("P1", "AAK"), ("P2", "GGR")]),
+        (true, vec![("rev_D1", "CCCCCKGGGGGK"), ("rev_D2", "AAAAAKSSSSSK")]),
+        (true, vec![]),
+        (false, vec![]),
+    ] {
+        let mut r = plain(recs);
+        r.gen = gen;
+        emit(Case::new(write_req(&r)).tag("directed").tag("no_digest_empty_database").nontrivial(false));
+    }
 }
 
 fn directed_decoy_listing(emit: &mut dyn FnMut(Case)) {
@@ -1259,7 +1269,23 @@ fn gen_chunked(rng: &mut Rng, thorough: bool, emit: &mut dyn FnMut(Case)) {
     r.gen = false;
     r.vars = vec![(s("["), vec![42.010565]), (s("]"), vec![14.01565])];
     emit_chunk(emit, &ChunkCase { k: 2, seed: 5, drop: false, kfree: true, r }, &["directed", "no_decoys"]);
-    // chunks(0) panics; a chunk without any peptide panics (trivial classes)
+    // a chunk none of whose proteins yields a peptide contributes the empty database (it used to panic):
+    // the result is the build of the other chunks
+    for k in [1usize, 2, 3] {
+        let r = chunk_base(hx(vec![("P1", "AAAAAKCCCCCK"), ("S1", "AAK"), ("P2", "CCCCCKGGGGGK"), ("S2", "GR"), ("S3", "MK")]));
+        emit_chunk(emit, &ChunkCase { k, seed: 9, drop: false, kfree: false, r }, &["directed", "chunk_without_peptides"]);
+    }
+    let mut r = chunk_base(hx(vec![("S1", "AAK"), ("P1", "AAAAAKCCCCCK"), ("S2", "GR"), ("P2", "CCCCCKGGGGGK")]));
+    r.gen = false;
+    emit_chunk(emit, &ChunkCase { k: 1, seed: 9, drop: false, kfree: true, r }, &["directed", "chunk_without_peptides", "no_decoys"]);
+    // every chunk empty; no chunk at all (only tagged records while decoys are generated; empty FASTA)
+    let r = chunk_base(hx(vec![("S1", "AAK"), ("S2", "GR")]));
+    emit_chunk(emit, &ChunkCase { k: 1, seed: 9, drop: false, kfree: false, r }, &["directed", "chunk_without_peptides", "no_digest_empty_database"]);
+    let r = chunk_base(hx(vec![("rev_D1", "CCCCCKGGGGGK")]));
+    emit_chunk(emit, &ChunkCase { k: 1, seed: 9, drop: true, kfree: false, r }, &["directed", "no_digest_empty_database"]);
+    let r = chunk_base(vec![]);
+    emit_chunk(emit, &ChunkCase { k: 2, seed: 9, drop: false, kfree: false, r }, &["directed", "no_digest_empty_database"]);
+    // chunks(0) panics (trivial class)
     let r = chunk_base(hx(vec![("P1", "AAAAAKCCCCCK")]));
     emit(Case::new(write_chunk(&ChunkCase { k: 0, seed: 1, drop: false, kfree: false, r })).tag("chunked_prefilter_stream").tag("chunk_size_0_panic").nontrivial(false));
     // random
